@@ -6,3 +6,5 @@ ASSUMPTIONS = ["the layouts of gen.LAYOUTS × missing-row styles cover the layou
 
 def run(ctx):
     ops_meta.metamorphic(ctx, ctx.budget(60, 700))
+    for _ in range(ctx.budget(60, 600)):
+        ops_meta.case_construction_history(ctx)
